@@ -2227,15 +2227,6 @@ impl BitvectorDomain {
             Piece | IntLeft | IntRight | IntSRight => (),
             _ => verif_assume_or_diverge((self.bytesize()) == (rhs.bytesize())),
         }
-        // A known zero on the left hand side is absorbing for the following operations,
-        // so the result is known even if the right hand side is `Top`.
-        if let BitvectorDomain::Value(lhs_bitvec) = self {
-            if lhs_bitvec.is_zero()
-                && matches!(op, IntMult | IntDiv | IntSDiv | IntRem | IntSRem | IntAnd)
-            {
-                return self.clone();
-            }
-        }
         match (self, rhs) {
             (BitvectorDomain::Value(lhs_bitvec), BitvectorDomain::Value(rhs_bitvec)) => {
                 match lhs_bitvec.bin_op(op, rhs_bitvec) {
